@@ -88,6 +88,14 @@ CHECKS = {
             "pairs from strings up to length 3 (4) for subpath, prefix-sibling, replace and match laws, four helper "
             "configurations, and the translate round trip for three case-mode pairs.",
             "Trusted: the law statements in vmc/props/c13.py; the random-long-path clause is not claimed.", "5/C13"),
+    "C15": ("thrx+seqx", TECH_E3 + "; lock-ownership monitor on explored engine executions",
+            "(a) Every call of a SyncState mutation entry point made while state.lock is not owned by the calling thread is "
+            "recorded with its call site, over a deviation-bounded engine exploration and over every public entry point an "
+            "application thread may call; (b) the real CloudSync with its sync loop, two event loops and an application thread "
+            "runs under a controlled scheduler with cooperative locks, every schedule with <=1 (2 thorough) preemptions, followed "
+            "by the convergence and index-integrity oracles.",
+            "Trusted: scheduling points at lock and wait operations are sufficient given (a); single attribute/dict operations "
+            "are atomic under the GIL; MockProvider.", "5/C15"),
     "C16": ("apix", TECH_E2,
             "Every call sequence up to depth 3 (4 thorough; filesystem 2/3) over create/mkdir/rename/upload/delete with "
             "colliding names and four size classes on four mock flavours and the filesystem provider, compared after every "
@@ -106,6 +114,13 @@ CHECKS = {
             "engine steps, every interleaving: no local file that is not local-origin, requested or predicate-matched after any "
             "action; listing flags; at quiet states folders mirrored, local creations uploaded, requested files byte-equal, "
             "un-request keeps the remote copy with the newest bytes.", NOTE_E1, "5/C20"),
+    "C18": ("thrx+enumx", TECH_E3 + " (line-level scheduling points in runnable.py/notification.py); " + TECH_E4 + " for the backoff law",
+            "Six stop/start/wake scenarios, two notification scenarios and two long-poll scenarios run on real threads with a "
+            "scheduling point at every source line of runnable.py and every Event/Thread/Queue operation, all schedules with <=2 "
+            "(3 thorough) preemptions: no work call after stop() returned, cleanup exactly once for a final stop, restart refused, "
+            "no deadlock, no exception in any thread, FIFO exactly-once notifications surviving a raising handler. The backoff "
+            "law is checked on every outcome sequence up to length 5 (6) for four parameter triples under a virtual clock.",
+            "Trusted: the shims for threading/queue/time; line granularity (GIL-atomic attribute access).", "5/C18"),
     "C19": ("apix", TECH_E2,
             "Every call sequence up to depth 3 (4 in thorough) over the cache API on colliding paths and ids, for both case "
             "modes, is executed on the real HierarchicalCache; structural invariants (acyclic, parent links, id map == reachable "
